@@ -18,18 +18,21 @@ subprocess.run(["git", "-C", "/repo", "worktree", "remove", "--force", wt], capt
 subprocess.run(["git", "-C", "/repo", "worktree", "add", "-q", wt, "HEAD"], check=True)
 ran = {}
 try:
-    r = subprocess.run(["/venv/bin/python", os.path.join(dst, "demo.py"), wt], capture_output=True, text=True, timeout=600)
-    ran["demo_without"] = r.returncode
+    # the suite first: it also builds the registry archives some demonstrations load
     r = subprocess.run(["git", "-C", wt, "apply", os.path.join(dst, "patch.diff")], capture_output=True, text=True)
     ran["apply"] = r.returncode
     if r.returncode:
         print("patch does not apply:", r.stderr)
-    r = subprocess.run(["/venv/bin/python", os.path.join(dst, "demo.py"), wt], capture_output=True, text=True, timeout=600)
-    ran["demo_with"] = r.returncode
-    ran["demo_output"] = (r.stdout + r.stderr)[-600:]
     r = subprocess.run(["/venv/bin/python", "-m", "pytest", "-q", "-p", "no:cacheprovider", "--timeout=900"], cwd=wt,
                        capture_output=True, text=True, timeout=1800)
     ran["suite"] = r.stdout.strip().splitlines()[-1] if r.stdout.strip() else r.stderr[-300:]
+    r = subprocess.run(["/venv/bin/python", os.path.join(dst, "demo.py"), wt], capture_output=True, text=True, timeout=600)
+    ran["demo_with"] = r.returncode
+    ran["demo_output"] = (r.stdout + r.stderr)[-600:]
+    subprocess.run(["git", "-C", wt, "apply", "-R", os.path.join(dst, "patch.diff")], capture_output=True, text=True)
+    r = subprocess.run(["/venv/bin/python", os.path.join(dst, "demo.py"), wt], capture_output=True, text=True, timeout=600)
+    ran["demo_without"] = r.returncode
+    subprocess.run(["git", "-C", wt, "apply", os.path.join(dst, "patch.diff")], capture_output=True, text=True)
     env = dict(os.environ, MOCLO_REPO=wt)
     ran["checks"] = {}
     for c in checks:
